@@ -229,7 +229,7 @@ def check_meta(case, ctx):
                 if not same_shape:
                     continue    # shaping is decided by C03
                 raise Violation('node meta is not the extent of the tokens its rule matched', grammar=gtext, text=w,
-                                got=show_spans(nt), want=show_spans(same_shape[0]), collapsed_token=_has_collapsed_token_case(nt, same_shape[0]),
+                                got=show_spans(nt), want=show_spans(same_shape[0]), collapsed_token=_has_collapsed_token_case(nt, same_shape[0]) and any('?' in r['mod'] for r in g['rules']),
                                 empty_child_adopts=_only_empty_adopting(nt, same_shape[0]) and any('?' in r['mod'] for r in g['rules']), **extra)
             meta_consistent(t, w, gtext, w, extra)
             ctx.label('meta:checked')
@@ -245,8 +245,8 @@ def show_spans(t):
 
 def _diff_kinds(got, want):
     """classifies every node whose extent differs: 'adopt' (reference extent empty but the node carries a meta), 'token' (the first or
-    last positioned child is a token and the node's extent lies inside the reference extent: filtered siblings of a ?-rule that
-    collapsed to that token were lost), 'child' (only inherited from a differing child), 'other'"""
+    last positioned child is a token -- or the first or last child is a None placeholder -- and the node's extent lies inside the
+    reference extent or is empty: filtered siblings of a ?-rule that collapsed to that token/placeholder were lost), 'child' (only inherited from a differing child), 'other'"""
     kinds = set()
     def walk(a, b):
         if a is None or a[0] != 'N': return
@@ -254,7 +254,8 @@ def _diff_kinds(got, want):
             kids = [k for k in a[2] if k is not None and (k[0] == 'T' or (k[0] == 'N' and k[3] is not None))]
             if b[3] is None and a[3] is not None:
                 kinds.add('adopt')
-            elif kids and (kids[0][0] == 'T' or kids[-1][0] == 'T') and b[3] is not None and a[3] is not None and b[3][0] <= a[3][0] and a[3][1] <= b[3][1]:
+            elif b[3] is not None and ((kids and (kids[0][0] == 'T' or kids[-1][0] == 'T')) or (a[2] and (a[2][0] is None or a[2][-1] is None))) \
+                    and (a[3] is None or (b[3][0] <= a[3][0] and a[3][1] <= b[3][1])):
                 kinds.add('token')
             elif any(k is not None and kb is not None and k[0] == 'N' and k[3] != kb[3] for k, kb in zip(a[2], b[2])):
                 kinds.add('child')
